@@ -76,4 +76,45 @@ def rewriteCommit (allows : Nat → Bool) (fn : Nat → Nat → Nat) (newId : Co
 def rewrite (allows : Nat → Bool) (fn : Nat → Nat → Nat) (newId : Commit → Nat) (cs : List Commit) : St :=
   cs.foldl (rewriteCommit allows fn newId) { cache := [], cmap := [], out := [] }
 
+/-! ### `migrate import --fixup`: which paths are to be converted
+
+The decision comes from the repository's own attribute files: the lines that speak about `filter` for a
+path, in the order Git reads them (the root file before nested ones, each top to bottom).  A line either
+does not match the path, or it assigns a value (`filter=lfs`, `filter=other`), unsets it (`-filter`) or
+leaves it unspecified (`!filter`) — the last two both mean "no filter". -/
+
+abbrev FBytes := List UInt8
+
+/-- (the line's pattern matches the path, what it says about `filter`: none = unset / unspecified) -/
+abbrev AttrLine := Bool × Option FBytes
+
+/-- Git's rule: the LAST matching line decides -/
+def effFilter (lines : List AttrLine) : Option FBytes :=
+  lines.foldl (fun acc l => if l.1 then l.2 else acc) none
+
+def sLfsFilter : FBytes := [108, 102, 115]
+
+/-- `--fixup` converts a raw blob exactly when the effective filter of its path is `lfs` -/
+def fixupConverts (lines : List AttrLine) : Bool := effFilter lines == some sLfsFilter
+
+theorem effFilter_append (a b : List AttrLine) :
+    effFilter (a ++ b) = b.foldl (fun acc l => if l.1 then l.2 else acc) (effFilter a) := by
+  simp [effFilter, List.foldl_append]
+
+theorem foldl_no_match (b : List AttrLine) (h : ∀ l ∈ b, l.1 = false) (x : Option FBytes) :
+    b.foldl (fun acc l => if l.1 then l.2 else acc) x = x := by
+  induction b generalizing x with
+  | nil => rfl
+  | cons l rest ih =>
+    have hl : l.1 = false := h l (by simp)
+    simp only [List.foldl_cons, hl]
+    exact ih (fun l' hl' => h l' (by simp [hl'])) x
+
+/-- the last matching line wins, whatever stands before it -/
+theorem effFilter_last_wins (pre post : List AttrLine) (v : Option FBytes) (hpost : ∀ l ∈ post, l.1 = false) :
+    effFilter (pre ++ (true, v) :: post) = v := by
+  rw [effFilter_append]
+  simp only [List.foldl_cons]
+  exact foldl_no_match post hpost v
+
 end Rw
